@@ -43,7 +43,7 @@ FOREIGN = {
 def gen_case(seed, tier, index=0):
     rng = Rng(seed, "c09")
     style = rng.pick(G.STYLE_NAMES if rng.chance(0.5) else sorted(FOREIGN))
-    dot_license = rng.chance(0.12)
+    dot_license = rng.chance(0.25)
     use_ext = rng.chance(0.6)
     name = ("h" + G.STYLES[style][7]) if use_ext else "h.unknownext"
     start = rng.wpick([(2, "empty"), (3, "code"), (3, "foreign" if style in FOREIGN else "code"), (1, "comment"), (1, "shebang")])
@@ -55,6 +55,9 @@ def gen_case(seed, tier, index=0):
         opts = {"holders": rng.sample(A.SAFE_HOLDERS[:5], rng.randint(0, 2)), "licenses": rng.sample(A.LICENSES, rng.randint(0, 2))}
         if rng.chance(0.3):
             opts["contributors"] = rng.sample(A.CONTRIBUTORS, rng.randint(1, 2))
+        if rng.chance(0.15):
+            # contributors only: the header then carries neither copyright nor licence
+            opts = {"holders": [], "licenses": [], "contributors": rng.sample(A.CONTRIBUTORS, rng.randint(1, 2))}
         if not (opts["holders"] or opts["licenses"] or opts.get("contributors")):
             opts["licenses"] = ["MIT"]
         if rng.chance(0.4):
